@@ -25,6 +25,7 @@ from dsim.core import Trace
 from dsim.threads import Baton
 
 PIN = "123-456-789"
+ALT_PIN = "987-654-321"
 PIN_TIME = 60 * 60 * 24 * 7
 T0 = 1_700_000_000.0
 SPY_ID = 424242
@@ -186,6 +187,8 @@ class DebuggerGates(Scenario):
                     steps.append(["clock", rng.choice([1, 60, 86400, PIN_TIME - 5, PIN_TIME + 5, -3600, -PIN_TIME])])
                 elif r < 0.17:
                     steps.append(["restart"])
+                elif r < 0.21:
+                    steps.append(["set_pin"])
                 else:
                     steps.append(["req", gen_request(rng)])
         return {"evalex": rng.random() < 0.85, "pin_on": rng.random() < 0.85, "steps": steps, "tape": [rng.randrange(0, 4) for _ in range(40 if style != "concurrent" else rng.choice([40, 200, 600]))]}
@@ -235,6 +238,7 @@ class DebuggerGates(Scenario):
             dbg.frames[0] = SpyFrame(spy_calls, "console")
             st["dbg"] = dbg
             st["failed"] = 0
+            st["pin"] = PIN  # (a new process reads the configured PIN again)
             return dbg
 
         new_instance()
@@ -246,11 +250,11 @@ class DebuggerGates(Scenario):
         def cookie_value(kind):
             now = int(clock.now)
             if kind == "valid":
-                return f"{now - 100}|{hash_pin(PIN)}"
+                return f"{now - 100}|{hash_pin(st["pin"])}"
             if kind == "expired":
-                return f"{now - PIN_TIME - 10}|{hash_pin(PIN)}"
+                return f"{now - PIN_TIME - 10}|{hash_pin(st["pin"])}"
             if kind == "future":
-                return f"{now + 10 ** 6}|{hash_pin(PIN)}"
+                return f"{now + 10 ** 6}|{hash_pin(st["pin"])}"
             if kind == "wrong_hash":
                 return f"{now - 100}|{hash_pin('000-000-000')}"
             if kind == "malformed":
@@ -269,7 +273,7 @@ class DebuggerGates(Scenario):
                 ts = int(ts)
             except ValueError:
                 return False
-            if h != hash_pin(PIN):
+            if h != hash_pin(st["pin"]):
                 return None
             return (clock.now - PIN_TIME) < ts
 
@@ -280,7 +284,7 @@ class DebuggerGates(Scenario):
             host = HOSTS[spec.get("host", 0) % len(HOSTS)][0] if isinstance(spec.get("host"), int) else "localhost"
             secret = {"right": dbg.secret, "wrong": "not-the-secret", "previous": st["prev_secret"] or "no-previous-secret", "absent": None}.get(spec.get("secret", "right"))
             frm = SPY_ID if spec.get("frame", "known") == "known" else 999
-            pin = {"right": PIN, "right_nodash": PIN.replace("-", ""), "right_spaces": f" {PIN} ", "empty": "", "wrong": "111-222-333"}.get(spec.get("pin", "wrong"), "111-222-333")
+            pin = {"right": st["pin"], "right_nodash": st["pin"].replace("-", ""), "right_spaces": f" {st['pin']} ", "empty": "", "wrong": "111-222-333"}.get(spec.get("pin", "wrong"), "111-222-333")
             path, q = "/", []
             if kind in ("eval", "console_eval"):
                 q = [("__debugger__", "yes"), ("cmd", "1+1"), ("frm", str(0 if kind == "console_eval" else frm))]
@@ -418,6 +422,17 @@ class DebuggerGates(Scenario):
                 out.fault("clock_jump_backwards" if d < 0 else "clock_jump_forwards")
                 st["dependent"] = True
                 tr.add("clock", d)
+            elif step[0] == "set_pin":
+                # the application changes the PIN while the process runs: cookies issued for the previous PIN are stale from now on
+                if not pin_on:
+                    continue
+                dbg_ = st["dbg"]
+                dbg_.pin_cookie_name  # noqa: B018  (the getter computes name and PIN on first use and would overwrite an earlier assignment)
+                st["pin"] = ALT_PIN if st["pin"] == PIN else PIN
+                dbg_.pin = st["pin"]
+                st["dependent"] = True
+                out.probe("pin_changed_at_run_time")
+                tr.add("set_pin")
             elif step[0] == "restart":
                 new_instance()
                 out.fault("process_restart")
@@ -586,7 +601,7 @@ class HostValidation(Scenario):
             bare = ref[1:] if ref.startswith(".") else ref
             host = rng.choice(["evil." + bare, "a.b." + bare, "evil" + bare, bare + ".evil.com", bare, bare.upper(), bare + ":8080", "x-" + bare,
                                # a listed name with something other than a port behind it, or inside text that is no host name
-                               bare + ":80@evil.com", bare + ":@evil.com", bare + "@evil.com", bare + ":x", bare + "evil.com", bare + ".evil.com:80", bare + " evil.com",
+                               bare + "8080", bare + ":80@evil.com", bare + ":@evil.com", bare + "@evil.com", bare + ":x", bare + "evil.com", bare + ".evil.com:80", bare + " evil.com",
                                "evil.com x." + bare, "evil.com/." + bare, "evil.com, x." + bare, "evil.com#." + bare, "evil.com?." + bare, "evil.com\t." + bare, "evil.com@" + bare])
             return self.with_server(rng, {"host": host, "trusted": trusted, "scheme": rng.choice(["http", "https"])})
         if k == 0:
